@@ -5,7 +5,7 @@ from __future__ import annotations
 import ast
 
 from tiv import ecma48
-from tiv.astutil import body_walk, call_name, dotted, enclosing_stmt, guards, norm, short, stores_in, walk_local
+from tiv.astutil import conds, body_walk, call_name, dotted, enclosing_stmt, guards, norm, short, stores_in, walk_local
 from tiv.constfold import UNKNOWN, Folder
 from tiv.effects import names_in
 from tiv.match import b2s, find_exprs, find_stmts, match_expr, match_stmt
@@ -195,11 +195,13 @@ def run(ck, m):
     lp = next((n for n in body_walk(ir) if isinstance(n, ast.For) and rh in norm(n.iter)), None)
     okl = lp is not None and match_expr(f"range(1, {rh} + 1)", lp.iter) is not None
     lv = norm(lp.target) if lp is not None else "line"
-    nl = [s for s in (lp.body if lp is not None else []) if isinstance(s, ast.Expr) and "'\\n'" in norm(s)]
-    ck.ob("R4", lp or ir, okl and len(nl) == 1 and norm(nl[0]) == f"{lv} < {rh} and buffer.write('\\n')", f"iterm2 LINES: a newline after every line but the last (`{lv} < {rh} and buffer.write(newline)`)", stmt="iterm2 LINES: r_height - 1 newlines")
-    ck.ob("R4", lp or ir, lp is not None and any(norm(s) == "is_on_konsole and buffer.write(cursor_right)" for s in lp.body) and
-          [norm(s) for s in lp.body].index("is_on_konsole and buffer.write(cursor_right)") < [norm(s) for s in lp.body].index(norm(nl[0])) if nl else False,
-          "iterm2 LINES: on konsole each line must be followed by CUF rendered_width before the newline", stmt="iterm2 LINES: CUF on konsole before newline")
+    nl = [s for s in (walk_local(lp) if lp is not None else []) if isinstance(s, ast.Expr) and isinstance(s.value, ast.Call) and norm(s.value.func) == "buffer.write" and "\\n" in norm(s.value.args[0])]
+    lp_conds = conds(lp) if lp is not None else set()
+    ck.ob("R4", lp or ir, okl and len(nl) == 1 and norm(nl[0].value.args[0]) == "'\\n'" and (conds(nl[0]) - lp_conds) == {f"{lv} < {rh}"},
+          f"iterm2 LINES: a newline after every line but the last (written under `{lv} < {rh}` only); found under {sorted(conds(nl[0]) - lp_conds) if nl else None}", stmt="iterm2 LINES: r_height - 1 newlines")
+    cuf = [s for s in (walk_local(lp) if lp is not None else []) if isinstance(s, ast.Expr) and norm(s.value) == "buffer.write(cursor_right)"]
+    ck.ob("R4", lp or ir, len(cuf) == 1 and bool(nl) and (conds(cuf[0]) - lp_conds) == {"is_on_konsole"} and cuf[0].lineno < nl[0].lineno,
+          "iterm2 LINES: on konsole (and only there) each line must be followed by CUF rendered_width before the newline", stmt="iterm2 LINES: CUF on konsole before newline")
     # -- block
     br = m.get(BL, "BlockImage._render_image")
     eol = find_stmts("end_of_line = SGR_DEFAULT + '\\n'", body_walk(br))
